@@ -341,7 +341,7 @@ func c29Stream(r *simkit.Run, list [][]byte, enc []byte, sizeClass string) {
 
 	r.Sched(simkit.SchedOpts{MaxSteps: 5000000, Stick: 8})
 
-	if r.Live() > 0 {
+	if r.Unfinished() {
 		r.Fail("liveness", "stream", "the reading task did not finish")
 	}
 }
@@ -459,7 +459,7 @@ func c29Frame(r *simkit.Run) {
 
 	r.Sched(simkit.SchedOpts{MaxSteps: 2000000, Stick: 8})
 
-	if r.Live() > 0 {
+	if r.Unfinished() {
 		r.Fail("liveness", "frame", "the reading task did not finish")
 	}
 }
